@@ -1,6 +1,6 @@
 (* Recover/Proofs.v — proofs about the C06 path model (coq/Recover/Path.v). *)
 From Coq Require Import NArith List Bool Lia.
-From ZV Require Import Recover.Consts Recover.Path Recover.ProofsWal.
+From ZV Require Import Recover.Consts Recover.Path Recover.ProofsWal Recover.ProofsInv Recover.ProofsMain.
 Import ListNotations.
 Open Scope N_scope.
 
@@ -76,3 +76,11 @@ Lemma two_windows_refuted :
     /\ sns s = [(7, SnFile); (6, SnFile)] /\ acked s = 7
     /\ recover_state s 0 0 = Err E_FILE_NOT_FOUND.
 Proof. eexists. vm_compute. repeat split; reflexivity. Qed.
+
+(* the hypotheses of the invariant theorems are satisfiable by non-trivial runs: the cycle above (and the trace with
+   one snapshot in flight) respects the schedule hypothesis; the trace with two snapshots in flight does not *)
+Lemma cycle_sched : sched_ok (cfg2 true) init_state trace_cycle.
+Proof. apply sched_okb_ok. vm_compute. reflexivity. Qed.
+
+Lemma two_windows_not_sched : sched_okb (cfg2 true) init_state trace_two_windows = false.
+Proof. vm_compute. reflexivity. Qed.
